@@ -29,6 +29,8 @@ class Contract:
     native: dict = field(default_factory=dict)       # hints for the native harness (class keys, stubs)
     pure: bool = False
     class_fields: dict = field(default_factory=dict)   # class name -> {attr: type}: field types (incl. ghost fields g_*) by class
+    list_literals: dict = field(default_factory=dict)   # local name -> list type: an empty `[]` assigned to that name is a typed symbolic list
+    loop_counts: dict = field(default_factory=dict)     # loop ordinal -> ghost int path incremented each time the loop takes an item (pulls of a generator)
     opaque_new: list = field(default_factory=list)    # classes whose construction is treated as an opaque fresh value (helper objects no clause mentions)
     yield_to: str = ""                                # generator functions: ghost list (of record indices / values) that `yield` appends to
     backrefs: dict = field(default_factory=dict)      # "Class.attr" -> root-level path: object-typed field of LIST ELEMENTS that points back at a named object
@@ -64,6 +66,8 @@ class Registry:
         if isinstance(c, Lemma):
             self.lemmas.append(c)
             return c
+        if any(x.variant == c.variant and x.interface == c.interface for x in self.by_target.get(c.target, [])):
+            return c      # the same contract reached through two modules
         self.contracts.append(c)
         self.by_target.setdefault(c.target, []).append(c)
         return c
